@@ -168,9 +168,14 @@ def step_event(ob, q, p, hid, G, srn):
         for i, c in enumerate(cols):
             sub = cache.get(k[:i])
             shared &= sub is not None and len(sub) > i and c is sub[i]
-        content &= semantic_content(ob, k, cols) == semantic_content(freshob, k, fp.chart(k))
+        try:
+            content &= semantic_content(ob, k, cols) == semantic_content(freshob, k, fp.chart(k))
+        except AttributeError:
+            content = None           # the parser's internals were refactored: this observation is unavailable
+            break
     e["shared"] = bool(shared)
-    e["content"] = bool(content)
+    if content is not None:
+        e["content"] = bool(content)
     e["frozen"] = all(col_digest(kind, c, ob.zero) == before_dig[id(c)] for _, _, c in live)
     if ans is not None:
         # a pristine object that has answered nothing else (the one above has just been asked for every cached prefix)
